@@ -84,18 +84,24 @@ CHECKS = {
                 "likewise; every increment is proven non-negative under its "
                 "guards; both scratch tables are reset before use; every "
                 "limit is consumed."
-                " D7.6: both scratch tables have an integer type covering -1 .. days-1 (a type taken from an attribute is looked up where it is assigned).",
+                " D7.6: both scratch tables have an integer type covering -1 .. days-1 (a type taken from an attribute is looked up where it is assigned)."
+                " Errors.evaluate hands the plan, every instance limit and both scratch tables to the kernel parameter of the same name."
+                " The declared upper bound equals / dominates the bound derived from the reference step and no closed-form witness plan family exceeds it for settings the Instance constructor accepts.",
         "design_ref": "DESIGN.md section 4, C07 and 10.2",
         "note": "By induction over the scan the returned value is the "
                 "documented per-rule count, hence 0 exactly for plans that "
-                "violate none of rules 1-10. Does NOT decide that the count "
-                "stays below the declared upper bound (4D-1)n-1, nor that "
+                "violate none of rules 1-10. The upper-bound clause is "
+                "decided relative to lemma L7 (hand proof that the reference "
+                "step adds at most the derived amounts). Does NOT decide that "
                 "rules 1-10 are the right notion of feasibility.",
         "technique": "symbolic normalisation of the loop body + case "
                      "splitting over comparison outcomes (exact "
                      "Fourier-Motzkin pruning) against a reference "
                      "transition function; sign analysis by linear "
-                     "entailment; CFG dominance",
+                     "entailment; CFG dominance; polynomial normal form "
+                     "of the declared bound compared with a derived bound "
+                     "(shifted-variable non-negativity) and evaluated on "
+                     "closed-form witness families",
     },
     "C03": {
         "text": "Decides that the geometric component of the bin-count "
@@ -157,7 +163,8 @@ CHECKS = {
                 "`rounds` times; the orientation follows the round's "
                 "parity except in the last of an odd number of rounds, so "
                 "home/away roles per pairing differ by at most one."
-                " An `else` of the day scan that leaves the loop over the games is reported (later games would be lost).",
+                " An `else` of the day scan that leaves the loop over the games is reported (later games would be lost)."
+                " The game loop visits the whole permutation: a slice is compared with the number of games for n = 2..9 teams and 1..4 rounds by evaluating its bound polynomial.",
         "design_ref": "DESIGN.md section 4, C15",
         "note": "Does NOT decide the home/away balance per TEAM in the "
                 "special last round (parity argument over the triangular "
@@ -209,7 +216,8 @@ CHECKS = {
                 "modelled, skip_orig_key predicates folded on the keys the "
                 "repository produces); every range accepted by "
                 "Instance.__new__ is accepted by from_compact_str."
-                " Optional CSV cells must test presence (`k in d`, `is not None`), not the truthiness of the value (a legitimate 0 would be written as empty).",
+                " Optional CSV cells must test presence (`k in d`, `is not None`), not the truthiness of the value (a legitimate 0 would be written as empty)."
+                " Every CSV cell is parsed with a converter that gives back the kind of number the record constructor declares for the field.",
         "design_ref": "DESIGN.md section 4, C19",
         "note": "Does NOT decide equality of values / derived attributes "
                 "after a round trip (runtime conversion). Relies on the "
@@ -232,7 +240,8 @@ CHECKS = {
                 "parsed packing, its instance and each objective's own "
                 "evaluate / lower_bound / upper_bound under that "
                 "objective's name."
-                " Whatever Hardness.evaluate keeps in self between evaluations depends on the evaluated instance only through its name (the memo key).",
+                " Whatever Hardness.evaluate keeps in self between evaluations depends on the evaluated instance only through its name (the memo key)."
+                " Positional constructor arguments of the result record are bound through the constructor's signature.",
         "design_ref": "DESIGN.md section 4, C12",
         "note": "Does NOT decide run behaviour: termination within budget, "
                 "feasibility of final solutions, logged value = "
@@ -363,7 +372,8 @@ CHECKS = {
                 "later starts) on all comparison outcomes plus the segment "
                 "arithmetic and continuation; the kernels receive the "
                 "instance's bin width and height in this order."
-                " Loop-carried names of the per-bin sweep (area accumulator, position) must be set again at the start of every bin.",
+                " Loop-carried names of the per-bin sweep (area accumulator, position) must be set again at the start of every bin."
+                " The declared upper bound is accepted when it is coefficient-wise at least n_items*S or the recognised tight form of its tie-breaker kind, and refuted by evaluating the bound polynomial for two families of feasible packings with known value; a constant offset of the per-bin table index is normalised into the slice bounds.",
         "design_ref": "DESIGN.md section 4, C02 and 10.2",
         "note": "Decides D2.1-D2.6. Not decided: validity of lower_bound() "
                 "for the objectives with a secondary term, dominance "
@@ -391,7 +401,8 @@ CHECKS = {
                 "keeps its finite domains, scans cyclically and is bounded; "
                 "the similarity objective pairs every statistic of the "
                 "instance with the same statistic of the template, hence "
-                "is 0 on the template.",
+                "is 0 on the template."
+                " The hardness objective is a function of the instance: the seeds of its runs come from the instance name on every path, stored seeds are re-used only behind `stored name == name`, seeds and name are stored together, and nothing else computed from an evaluated instance is kept.",
         "design_ref": "DESIGN.md section 4, C17 and 10.2",
         "note": "Decides D17.1-D17.9. Not decided: lower_bound_bins == "
                 "min_bins as a value (needs the validity of the DAMV "
@@ -413,7 +424,8 @@ CHECKS = {
                 "orderings of the two index draws are enumerated to prove "
                 "0<=i<j<=n-2 and (i,j)!=(0,n-2) at the kernel, and the "
                 "kernel/register/evaluate wiring and the h-table size are "
-                "checked by symbolic dataflow.",
+                "checked by symbolic dataflow."
+                " The kernel rules are path-wise: every path through a move kernel is followed symbolically; paths that write the tour must entail the acceptance criterion, reverse x[i..j] exactly once and return y + the 2-opt delta; every other path must entail the negated criterion and return y.",
         "design_ref": "DESIGN.md section 4, C06",
         "note": "Decides D6.1-D6.5; the induction 'every registered y is "
                 "the true length' is by composition with C05. Trusted: "
@@ -431,7 +443,8 @@ CHECKS = {
                 "maxima / minima excluding the diagonal); must-pass-through "
                 "of the entry-by-entry copy verification, the 64-bit "
                 "accumulator, the 2^63 cap and the symmetry-flag protocol "
-                "are decided on the CFG / guard conditions.",
+                "are decided on the CFG / guard conditions."
+                " The stored matrix is a private copy: allocate-and-copyto or a converting constructor that always returns new storage, followed by the entry-by-entry verification; a conversion that may return its argument (asarray / view / copy=False) is a finding.",
         "design_ref": "DESIGN.md section 4, C05",
         "note": "Decides D5.1-D5.4. Trusted: N1 (kernel integer scalars "
                 "are 64 bit), N3 (index -1 wraps), entries non-negative "
@@ -449,7 +462,8 @@ CHECKS = {
                 "without aliasing or clobbered operands; the constructor "
                 "only tightens; the parser binds the first-filled list to "
                 "`flows`."
-                " The matrices are stored with the integer type of [0, stored upper bound]; the text loader's token range covers the largest bound the constructor accepts.",
+                " The matrices are stored with the integer type of [0, stored upper bound]; the text loader's token range covers the largest bound the constructor accepts."
+                " On every path through the constructor the stored distance / flow matrix is the argument of that name or an element-wise conversion of it.",
         "design_ref": "DESIGN.md section 4, C09",
         "note": "Decides D9.1-D9.4. Not decided: independence of line "
                 "wrapping (runtime tokenisation). Trusted: N1, property "
@@ -494,7 +508,8 @@ CHECKS = {
                 "(abstract interpretation), the exact templates of the "
                 "emitted statements, definition of inputs, unique fresh "
                 "names, and the CodeGenerator's line/indent protocol."
-                " D16.9: the cache of make_ann is keyed by every parameter, looked up and filled under the same key, and what is cached is what is returned.",
+                " D16.9: the cache of make_ann is keyed by every parameter, looked up and filled under the same key, and what is cached is what is returned."
+                " Every division in a controller / system kernel is reached only under a test that excludes a zero divisor, decided by value and path by path.",
         "design_ref": "DESIGN.md section 4, C16 and 10.2",
         "note": "Decides D16.0-D16.8. Does not decide: the value returned "
                 "by the min-ANN minimisers, the predefined literature "
